@@ -27,6 +27,7 @@ type Env struct {
 	scopePos token.Pos // atcall clauses: plain local names resolve as at this source position
 	iterHeap  *Heap    // iter(e): heap and locals at the head of the current iteration of loop 0
 	iterCells map[*ssa.Alloc]*Term
+	markHeap  *Heap // marked(e): heap after the call designated by the unit's mark clause
 }
 
 func (en *Env) with(heap *Heap) *Env {
@@ -36,7 +37,7 @@ func (en *Env) with(heap *Heap) *Env {
 }
 
 func (x *Exec) loopEnv(fr *Frame, st *State) *Env {
-	env := &Env{x: x, vars: map[string]*SV{}, heap: st.heap, old: x.heap0, fr: fr, iterHeap: fr.iterHeap, iterCells: fr.iterCells}
+	env := &Env{x: x, vars: map[string]*SV{}, heap: st.heap, old: x.heap0, fr: fr, iterHeap: fr.iterHeap, iterCells: fr.iterCells, markHeap: st.markHeap}
 	for k, v := range x.entryEnv {
 		env.vars[k] = v
 	}
@@ -291,6 +292,11 @@ func (en *Env) evalIdent(n *ast.Ident) *SV {
 				if sv, ok := en.fr.vals[l]; ok && sv.P != nil {
 					return TV(en.load(sv.P))
 				}
+				if en.iterHeap != nil {
+					// step / exit clauses: a local whose declaration was not reached on this path has no
+					// value yet - the clause has to hold whatever it would be
+					return TV(w.Fresh("undecl."+n.Name, w.SortOf(l.Type().(*types.Pointer).Elem())))
+				}
 			}
 		}
 	}
@@ -491,6 +497,15 @@ func (en *Env) evalIndex(n *ast.IndexExpr) *SV {
 // bound variables.
 func (en *Env) validIn(v *Term, t types.Type) {
 	if len(en.bound) > 0 {
+		// usable only when closed: skip if the value mentions a bound variable
+		vs := v.String()
+		for _, b := range en.bound {
+			if strings.Contains(vs, b.String()) {
+				return
+			}
+		}
+	}
+	if en.st == nil {
 		return
 	}
 	tmp := &State{heap: en.heap, known: map[string]bool{}}
@@ -676,6 +691,13 @@ func (en *Env) coerceArg(t *Term, to types.Type) *Term {
 
 func (en *Env) convert(v *Term, from, to types.Type) *Term {
 	x, w := en.x, en.x.w
+	if _, toIface := to.Underlying().(*types.Interface); toIface {
+		if _, fromIface := from.Underlying().(*types.Interface); !fromIface {
+			// any(x): box the concrete value as the assignment to an interface would
+			return w.iface.Make(w.TypeID(from), w.Box(from, v))
+		}
+		return v
+	}
 	fs, ts := w.SortOf(from), w.SortOf(to)
 	if b, ok := from.(*types.Basic); ok && b.Info()&types.IsUntyped != 0 {
 		if v.isLit {
@@ -714,6 +736,11 @@ func (en *Env) evalOverlayCall(fobj *types.Func, decl *ast.FuncDecl, n *ast.Call
 	switch name {
 	case "old":
 		return en.with(en.old).eval(n.Args[0])
+	case "marked":
+		if en.markHeap == nil {
+			unsupportedf("marked(...) on a path that did not pass the marked call")
+		}
+		return en.with(en.markHeap).eval(n.Args[0])
 	case "iter":
 		// the value at the head of the current iteration of the unit's loop 0 (after the
 		// invariant was assumed): heap and locals of that moment
@@ -844,7 +871,13 @@ func (en *Env) evalOverlayCall(fobj *types.Func, decl *ast.FuncDecl, n *ast.Call
 				for i := 0; i < pst.NumFields(); i++ {
 					if pst.Field(i).Name() == fname {
 						_, c := x.fieldComp(en.heap, pt.Elem(), i)
-						return TV(Select(c, r))
+						v := Select(c, r)
+						if en.st != nil {
+							// a value read from the heap is a valid value of its type (slice header well-formed
+							// and allocated, ...), as for every other load
+							en.validIn(v, pst.Field(i).Type())
+						}
+						return TV(v)
 					}
 				}
 				unsupportedf("field %s not in %s", fname, xt)
@@ -967,7 +1000,7 @@ func (en *Env) evalOverlayCall(fobj *types.Func, decl *ast.FuncDecl, n *ast.Call
 	if en.depth > 12 {
 		unsupportedf("pred recursion too deep at %s", name)
 	}
-	sub := &Env{x: x, vars: map[string]*SV{}, bound: map[string]*Term{}, heap: en.heap, old: en.old, st: en.st, info: en.info, depth: en.depth + 1, iterHeap: en.iterHeap, iterCells: en.iterCells}
+	sub := &Env{x: x, vars: map[string]*SV{}, bound: map[string]*Term{}, heap: en.heap, old: en.old, st: en.st, info: en.info, depth: en.depth + 1, iterHeap: en.iterHeap, iterCells: en.iterCells, markHeap: en.markHeap}
 	// bound variables of the caller are not visible by name inside the pred (its parameters shadow
 	// them); they are kept under a private name so that "is a quantifier open" checks still see them
 	for k, v := range en.bound {
